@@ -173,6 +173,38 @@ theorem runNode_gok (env : Env δ ν) : ∀ (nd : Node δ) (f : Frame) (st : Evm
         · simp only [hi, ↓reduceIte, Option.some.injEq, Prod.mk.injEq] at h
           rw [← h.2] at hg; simp at hg
         · simp [hi] at h
+    | scall =>
+      simp only at h
+      by_cases hi : ignore = true
+      · simp only [hi, ↓reduceIte, Option.some.injEq, Prod.mk.injEq] at h
+        rw [← h.2] at hg; simp at hg
+      · simp [hi] at h
+    | vcall =>
+      simp only at h
+      cases hr : runNodes env { self := target, sender := f.self } (bump target st) body with
+      | some r =>
+        rw [hr] at h; simp only [Option.some.injEq] at h
+        obtain ⟨st2, gl2⟩ := r
+        simp only [Prod.mk.injEq] at h
+        exact runNodes_gok env body _ _ ht h3 st2 gl2 hr g (h.2 ▸ hg)
+      | none =>
+        rw [hr] at h
+        by_cases hi : ignore = true
+        · simp only [hi, ↓reduceIte, Option.some.injEq, Prod.mk.injEq] at h
+          rw [← h.2] at hg; simp at hg
+        · simp [hi] at h
+  | .sys .scall ig c, f, st, hf, _, st', gl, h, g, hg => by
+    simp only [runNode] at h
+    by_cases hi : ig = true
+    · simp only [hi, ↓reduceIte, Option.some.injEq, Prod.mk.injEq] at h
+      rw [← h.2] at hg; simp at hg
+    · simp [hi] at h
+  | .sys .vcall ig c, f, st, hf, _, st', gl, h, g, hg => by
+    simp only [runNode] at h
+    by_cases hi : ig = true
+    · simp only [hi, ↓reduceIte, Option.some.injEq, Prod.mk.injEq] at h
+      rw [← h.2] at hg; simp at hg
+    · simp [hi] at h
   | .sys .call ig c, f, st, hf, _, st', gl, h, g, hg => by
     simp only [runNode, Option.some.injEq, Prod.mk.injEq] at h
     rw [← h.2] at hg; simp only [List.mem_singleton] at hg
@@ -679,6 +711,171 @@ theorem burn_to_fee_collector (bk bk' : Bank) (m : String) (amt : Coins) (ma fc 
       simp only [addCoins_self]
       rw [subCoins_other ma amt bk.bal b1 fc d hne hsub]
 
+/-! ### 5b. The module-call path (received XIBC packet → Execute → system contract) -/
+
+theorem okMsgs_all_ok_msgOf (l : List (Addr × SysCall))
+    (hl : (l.map (fun sc => construct (emitOf sc.1 sc.2))) = (okMsgs (l.map (fun sc => construct (emitOf sc.1 sc.2)))).map .ok) :
+    okMsgs (l.map (fun sc => construct (emitOf sc.1 sc.2))) = l.map (fun sc => msgOf sc.1 sc.2) := by
+  induction l with
+  | nil => rfl
+  | cons a rest ih =>
+    simp only [List.map_cons] at hl ⊢
+    have hle : ∀ (r : List (Addr × SysCall)), (okMsgs (r.map (fun sc => construct (emitOf sc.1 sc.2)))).length ≤ r.length := by
+      intro r
+      induction r with
+      | nil => simp [okMsgs]
+      | cons b r ihr =>
+        simp only [List.map_cons]
+        cases construct (emitOf b.1 b.2) <;> simp [okMsgs] <;> omega
+    cases hc : construct (emitOf a.1 a.2) with
+    | ok m =>
+      simp only [hc, okMsgs, List.map_cons, List.cons.injEq, true_and] at hl ⊢
+      exact ⟨construct_emit a.1 a.2 m hc, ih hl⟩
+    | err e =>
+      simp only [hc, okMsgs] at hl
+      have := congrArg List.length hl
+      simp only [List.length_cons, List.length_map] at this
+      have := hle rest
+      omega
+    | panic p =>
+      simp only [hc, okMsgs] at hl
+      have := congrArg List.length hl
+      simp only [List.length_cons, List.length_map] at this
+      have := hle rest
+      omega
+
+def RecvCall.wf (rc : RecvCall δ) : Bool :=
+  match rc.call with
+  | none => true
+  | some nd => nd.wf
+
+theorem executeAddr_notSys : notSys executeAddr := by
+  constructor <;> decide
+
+theorem recvEvm_gok (env : Env δ ν) (st : Evm) (rc : RecvCall δ) (hwf : rc.wf = true) (evm' : Evm) (gl : List (GLog δ))
+    (code : Nat) (h : recvEvm env st rc = some (evm', gl, code)) : ∀ g ∈ gl, GOK env g := by
+  simp only [recvEvm] at h
+  split at h
+  · cases h
+  · split at h
+    · simp only [Option.some.injEq, Prod.mk.injEq] at h
+      intro g hg; rw [← h.2.1] at hg; simp at hg
+    · cases hc : rc.call with
+      | none =>
+        simp only [hc, Option.some.injEq, Prod.mk.injEq] at h
+        intro g hg; rw [← h.2.1] at hg; simp at hg
+      | some nd =>
+        simp only [hc] at h
+        simp only [RecvCall.wf, hc] at hwf
+        split at h
+        · rename_i st2 gl2 hr
+          simp only [Option.some.injEq, Prod.mk.injEq] at h
+          intro g hg
+          rw [← h.2.1] at hg
+          exact runNode_gok env nd _ _ executeAddr_notSys hwf st2 gl2 hr g hg
+        · simp only [Option.some.injEq, Prod.mk.injEq] at h
+          intro g hg; rw [← h.2.1] at hg; simp at hg
+
+/-- **recv_atomic**: whatever the callback does and whatever a failing hook chain leaves on the context it ran on
+(`junk`), a handled `MsgRecvPacket` writes the receipt and exactly one acknowledgement, and unless that acknowledgement
+carries result code 0 the chain state (EVM state of Execute / Staking / helper contracts, minted vouchers, native
+delegations, votes, balances) is exactly the state before. -/
+theorem recv_atomic (env : Env δ ν) (junk : State ν) (c c' : Chain ν) (seq : Nat) (rc : RecvCall δ) (tr : List Msg)
+    (h : recvPacket env junk c seq rc = (.ok c', tr)) :
+    ∃ code, c'.acks = (seq, code) :: c.acks ∧ c'.receipts = seq :: c.receipts ∧ (code ≠ 0 → c'.st = c.st) := by
+  simp only [recvPacket] at h
+  split at h
+  · simp at h
+  · split at h
+    · rename_i s' code tr' hcb
+      split at h
+      · simp only [Prod.mk.injEq, Outcome.ok.injEq] at h
+        exact ⟨0, by rw [← h.1], by rw [← h.1], fun hh => absurd rfl hh⟩
+      · simp only [Prod.mk.injEq, Outcome.ok.injEq] at h
+        exact ⟨code, by rw [← h.1], by rw [← h.1], fun _ => by rw [← h.1]⟩
+    · simp only [Prod.mk.injEq, Outcome.ok.injEq] at h
+      exact ⟨1, by rw [← h.1], by rw [← h.1], fun _ => by rw [← h.1]⟩
+    · simp at h
+
+/-- **recv_native_failure**: the EVM part of the callback succeeded (Execute called the system contract, storage written,
+vouchers minted) but an attributed native message fails ⇒ error acknowledgement (code 1), receipt, and *nothing* of the
+callback survives — for every `junk` the un-branched `CallEVMWithData` may have left behind. -/
+theorem recv_native_failure (env : Env δ ν) (junk : State ν) (c : Chain ν) (seq : Nat) (rc : RecvCall δ)
+    (evm' : Evm) (gl : List (GLog δ)) (code : Nat) (e : String)
+    (hfresh : c.receipts.contains seq = false)
+    (hevm : recvEvm env c.st.evm rc = some (evm', gl, code))
+    (hf : (runItems env c.st.native (expectedItems env (gl.map (·.log)))).res = .err e) :
+    (recvPacket env junk c seq rc).1 = .ok { c with receipts := seq :: c.receipts, acks := (seq, 1) :: c.acks } := by
+  rw [← executes_exactly_filtered] at hf
+  have hmem : ¬ seq ∈ c.receipts := by simpa using hfresh
+  simp [recvPacket, callPacket, hevm, hf, hmem]
+
+/-- a panic inside a hook leaves `RecvPacket`; `runTx` discards everything (no receipt, no acknowledgement). -/
+theorem recv_panic_discards (env : Env δ ν) (junk : State ν) (c : Chain ν) (seq : Nat) (rc : RecvCall δ) (p : String)
+    (h : (recvPacket env junk c seq rc).1 = .panic p) : (deliverRecv env junk c seq rc).1 = (c, .panicked) := by
+  simp only [deliverRecv]
+  cases hr : recvPacket env junk c seq rc with
+  | mk o tr =>
+    rw [hr] at h; simp only at h; subst h; rfl
+
+/-- **recv_success_attributed**: an acknowledgement with code 0 means the callback's EVM state was committed and the
+native modules executed exactly the system-contract calls made inside the callback — each once, in order (staking, then
+governance), signed by the msg.sender of the contract frame (the Execute contract when the packet names the system
+contract directly), with the call's own arguments. -/
+theorem recv_success_attributed (env : Env δ ν) (hrt : RoundTrip env) (junk : State ν) (c c' : Chain ν) (seq : Nat)
+    (rc : RecvCall δ) (hwf : rc.wf = true) (tr : List Msg)
+    (h : recvPacket env junk c seq rc = (.ok c', tr)) (hack : c'.acks = (seq, 0) :: c.acks) :
+    ∃ evm' gl, recvEvm env c.st.evm rc = some (evm', gl, 0) ∧ c'.st.evm = evm' ∧
+      tr = (attributed .staking gl ++ attributed .gov gl).map (fun sc => msgOf sc.1 sc.2) := by
+  simp only [recvPacket] at h
+  split at h
+  · simp at h
+  · simp only [callPacket] at h
+    cases hevm : recvEvm env c.st.evm rc with
+    | none =>
+      simp only [hevm, Prod.mk.injEq, Outcome.ok.injEq] at h
+      rw [← h.1] at hack; simp at hack
+    | some r =>
+      obtain ⟨evm', gl, code⟩ := r
+      simp only [hevm] at h
+      cases hres : (postTx env c.st.native (gl.map (·.log))).res with
+      | err e =>
+        simp only [hres, Prod.mk.injEq, Outcome.ok.injEq] at h
+        rw [← h.1] at hack; simp at hack
+      | panic p => simp [hres] at h
+      | ok n' =>
+        simp only [hres] at h
+        by_cases hc : code = 0
+        · subst hc
+          simp only [↓reduceIte, Prod.mk.injEq, Outcome.ok.injEq] at h
+          refine ⟨evm', gl, rfl, by rw [← h.1], ?_⟩
+          have hgok := recvEvm_gok env c.st.evm rc hwf evm' gl 0 hevm
+          obtain ⟨h1, h2⟩ := executed_all_of_ok env c.st.native n' _ hres
+          rw [expected_eq_attributed env hrt gl hgok] at h1 h2
+          rw [← h.2, h1]
+          exact okMsgs_all_ok_msgOf _ h2
+        · simp only [hc, ↓reduceIte, Prod.mk.injEq, Outcome.ok.injEq] at h
+          rw [← h.1] at hack
+          simp only [List.cons.injEq, Prod.mk.injEq, true_and, and_true] at hack
+          exact absurd hack hc
+
+/-- the packet names the system contract itself: every executed message is signed by the Execute contract. -/
+theorem recv_direct_call_signer (env : Env δ ν) (hrt : RoundTrip env) (junk : State ν) (c c' : Chain ν) (seq : Nat)
+    (rc : RecvCall δ) (ig : Bool) (call : SysCall) (hcall : rc.call = some (.sys .call ig call)) (tr : List Msg)
+    (h : recvPacket env junk c seq rc = (.ok c', tr)) (hack : c'.acks = (seq, 0) :: c.acks) :
+    tr = [msgOf executeAddr call] ∧ (msgOf executeAddr call).signer = executeAddr := by
+  have hwf : rc.wf = true := by simp [RecvCall.wf, hcall, Node.wf]
+  obtain ⟨evm', gl, hevm, _, htr⟩ := recv_success_attributed env hrt junk c c' seq rc hwf tr h hack
+  refine ⟨?_, msgOf_signer _ _⟩
+  simp only [recvEvm, hcall, runNode] at hevm
+  split at hevm
+  · cases hevm
+  · split at hevm
+    · simp at hevm
+    · simp only [Option.some.injEq, Prod.mk.injEq] at hevm
+      rw [htr, ← hevm.2.1]
+      cases hcc : call.contract <;> simp [attributed, hcc]
+
 /-! ### 6. Non-vacuity: concrete instances of the hypotheses and of every branch -/
 
 namespace Ex
@@ -715,6 +912,29 @@ example : (deliverTx Ex.env Ex.s0 Ex.tx1).2 = [Msg.delegate Ex.proxyA Ex.val 5] 
 example : (deliverTx Ex.env Ex.s0 Ex.tx1).1.2 = .ok ∧ (deliverTx Ex.env Ex.s0 Ex.tx1).1.1.evm = [(Ex.proxyA, 1)] := by decide
 /-- native failure: status `hookFail`, and the proxy's storage write is gone as well. -/
 example : (deliverTx Ex.env Ex.s0 Ex.tx2).1.2 = .hookFail ∧ (deliverTx Ex.env Ex.s0 Ex.tx2).1.1.evm = [] := by decide
+
+namespace Ex
+/-- received packet: 40 vouchers minted, then Execute calls Staking.delegate directly. -/
+def rcOk : RecvCall (Outcome Event) :=
+  { transfer := some 40, transferOk := true, reverts := false, call := some (.sys .call false (.delegate val 5)) }
+/-- same, but the native module rejects the message (amount 13). -/
+def rcFail : RecvCall (Outcome Event) :=
+  { transfer := some 40, transferOk := true, reverts := false, call := some (.sys .call false (.delegate val 13)) }
+def chain0 : Chain (List Msg) := { st := s0, receipts := [], acks := [] }
+/-- what a failing hook chain left on the context it ran on: arbitrary. -/
+def junk : State (List Msg) := { evm := [([0xff], 99)], native := [.withdraw [0xee] [0xdd]] }
+end Ex
+
+example : Ex.rcOk.wf = true := by decide
+/-- success: ack 0, vouchers minted, exactly one message, signed by the Execute contract. -/
+example : (deliverRecv Ex.env Ex.junk Ex.chain0 1 Ex.rcOk).2 = [Msg.delegate executeAddr Ex.val 5] ∧
+    (deliverRecv Ex.env Ex.junk Ex.chain0 1 Ex.rcOk).1.1.acks = [(1, 0)] ∧
+    (deliverRecv Ex.env Ex.junk Ex.chain0 1 Ex.rcOk).1.1.st.evm = [(voucherKey, 40)] := by decide
+/-- native failure: error ack, receipt, and neither the minted vouchers nor the junk of the un-branched call survive. -/
+example : (deliverRecv Ex.env Ex.junk Ex.chain0 1 Ex.rcFail).1.1.acks = [(1, 1)] ∧
+    (deliverRecv Ex.env Ex.junk Ex.chain0 1 Ex.rcFail).1.1.receipts = [1] ∧
+    (deliverRecv Ex.env Ex.junk Ex.chain0 1 Ex.rcFail).1.1.st.evm = [] ∧
+    (deliverRecv Ex.env Ex.junk Ex.chain0 1 Ex.rcFail).1.1.st.native = [] := by decide
 
 namespace Ex
 def bank : Bank :=
